@@ -1145,6 +1145,7 @@ class Engine:
                     continue
                 s1.ghost["_k"] = k
                 s1.ghost["_iter_entry_env"] = dict(s1.env)  # values of the locals when the arbitrary iteration starts
+                s1.ghost["_iter_elem"] = seq.get(k)  # the element of this iteration (whatever the loop variable is called)
                 n_before = len(s1.trace)
                 for s2, o in self.exec_block(node.body, s1):
                     if o.kind in ("next", "continue"):
@@ -1239,7 +1240,11 @@ class Engine:
         if text in self.c.loops:
             return self.c.loops[text]
         if any(isinstance(k, str) for k in self.c.loops):
-            return None  # text-keyed contract: an unknown loop has no spec
+            # text-keyed contract: an unknown loop has no spec -- unless the function has exactly one loop and the
+            # contract exactly one loop spec (the iterable was merely renamed / re-spelt)
+            if len(self.c.loops) == 1 and len(self.loop_ord) == 1:
+                return next(iter(self.c.loops.values()))
+            return None
         return self.c.loops.get(k_ord)
 
     def _stuck_while(self, node, st, k_ord):
